@@ -197,12 +197,14 @@ pub fn run(c: &Case, _ctx: &Ctx) -> Outcome {
     let mut lost = false;
     if let Some(sel) = c.lose_pack {
         if let Ok(view) = index_view(&storage, &key) {
-            let data_packs: Vec<_> = view
+            let mut data_packs: Vec<_> = view
                 .packs
                 .iter()
                 .filter(|(_, blobs)| blobs.iter().all(|b| b.0 == vpcore::fmt::BType::Data) && !blobs.is_empty())
-                .map(|(p, _)| *p)
                 .collect();
+            // pack ids are random (nonces): order the candidates by their content instead
+            data_packs.sort_by_key(|(_, b)| b.iter().map(|x| x.1).min());
+            let data_packs: Vec<_> = data_packs.into_iter().map(|(p, _)| *p).collect();
             if !data_packs.is_empty() {
                 let victim = data_packs[pick_idx(sel, data_packs.len())];
                 _ = storage.del(FileType::Pack, &to_id(&victim));
